@@ -432,3 +432,86 @@ func ruleEntryErr(p *Prog, r *Report) {
 		r.Undecided("ENTRYERR", "exif2 | tagFromBuffer", "-", "no call found (anchor lost)")
 	}
 }
+
+// NARROWV (C03): a decoded number is never narrowed without a range check.
+//
+// Instances: in package exif2, every narrowing integer conversion whose operand is the result of one of the
+// decoder's number parsers (ParseUint32, ParseUint16, an element of ParseRationalU's result). Without a guard a
+// value that does not fit the field is reported modulo 2^n: an ImageWidth of 70000 as 4464, an exposure bias of
+// -200/100 as something else entirely (its 8-bit parts wrap).
+func ruleNarrowV(p *Prog, r *Report) {
+	r.Explain("NARROWV: in package exif2 every narrowing integer conversion of a number parser's result (ParseUint32, ParseUint16, an element of ParseRationalU) is dominated by an ordered comparison of that result: an unguarded conversion reports a value that does not fit the field modulo 2^n.")
+	pk := p.SSAPkg("exif2")
+	if pk == nil {
+		r.Fatal("unresolved anchor: package exif2")
+		return
+	}
+	isParser := func(v ssa.Value) (string, bool) {
+		switch x := v.(type) {
+		case *ssa.Call:
+			if sc := x.Call.StaticCallee(); sc != nil && sc.Pkg == pk && (sc.Name() == "ParseUint32" || sc.Name() == "ParseUint16") {
+				return sc.Name(), true
+			}
+		case *ssa.Index:
+			if c, ok := x.X.(*ssa.Call); ok {
+				if sc := c.Call.StaticCallee(); sc != nil && sc.Pkg == pk && sc.Name() == "ParseRationalU" {
+					return "ParseRationalU", true
+				}
+			}
+		case *ssa.UnOp:
+			// element of the spilled result array
+			if ia, ok := x.X.(*ssa.IndexAddr); ok && x.Op == token.MUL {
+				if a, ok := ia.X.(*ssa.Alloc); ok {
+					for _, rf := range refs(a) {
+						if st, ok := rf.(*ssa.Store); ok && st.Addr == ssa.Value(a) {
+							if c, ok := st.Val.(*ssa.Call); ok {
+								if sc := c.Call.StaticCallee(); sc != nil && sc.Pkg == pk && sc.Name() == "ParseRationalU" {
+									return "ParseRationalU", true
+								}
+							}
+						}
+					}
+				}
+			}
+		}
+		return "", false
+	}
+	per := map[string]int{}
+	n := 0
+	for _, f := range p.AllLibFns() {
+		if f.Pkg != pk || f.Blocks == nil {
+			continue
+		}
+		eachInstr(f, func(b *ssa.BasicBlock, _ int, in ssa.Instruction) {
+			cv, ok := in.(*ssa.Convert)
+			if !ok || !narrowing(cv) {
+				return
+			}
+			src, ok := isParser(cv.X)
+			if !ok {
+				return
+			}
+			n++
+			per[fnName(f)+src]++
+			key := fmt.Sprintf("%s | %s of %s #%d", fnName(f), typeStr(cv.Type()), src, per[fnName(f)+src])
+			at := p.posStr(cv.Pos())
+			guarded := false
+			for _, cd := range condsAt(b) {
+				if bo, ok := cd.V.(*ssa.BinOp); ok && (bo.X == cv.X || bo.Y == cv.X) {
+					switch bo.Op {
+					case token.LSS, token.LEQ, token.GTR, token.GEQ:
+						guarded = true
+					}
+				}
+			}
+			if guarded {
+				r.OK("NARROWV", key, at, "under a range check")
+			} else {
+				r.Bad("NARROWV", key, at, "the decoded number is converted to "+typeStr(cv.Type())+" without a range check: a value that does not fit is reported modulo 2^n instead of exactly or not at all")
+			}
+		})
+	}
+	if n == 0 {
+		r.Undecided("NARROWV", "exif2 | narrowing conversions of decoded numbers", "-", "none found (anchor lost)")
+	}
+}
